@@ -176,4 +176,68 @@ def register(M):
 
     M.call_fn_value = call_fn_value
     M.opaque_fn_hook = None
+    register_streams(M)
     M.call_opaque_fn = lambda ex, f, args: call_fn_value(ex, f, list(args), None, None)
+
+
+def register_streams(M):
+    """Parser stream (items become ready after k polls), StreamExt::next, unbounded channel sender as a FIFO log."""
+    reg = M.reg
+    import z3 as _z3
+
+    def pstream(items):
+        """items: list of (pending_polls, value)"""
+        return Obj('pstream', items=tuple(items), polls=0)
+    M.pstream = pstream
+
+    @reg('StreamExt::next')
+    def _(ex, info, a, dty):
+        return Obj('next', stream=a[0])
+
+    def poll_stream(ex, sref, dty):
+        cell, path = ex.deref(sref)
+        s = ex.read_path(cell, path)
+        if isinstance(s, Adt) and (None, 0) in s.fields:      # Pin<&mut S>
+            cell, path = ex.deref(s)
+            s = ex.read_path(cell, path)
+        if not (isinstance(s, Obj) and s.kind == 'pstream'):
+            raise Inconclusive('poll_next on %r' % (s,))
+        M.log(ex, 'stream_polled')
+        if not s.items:
+            return M.poll_ready(dty, M.none('Option<?>'))
+        k, v = s.items[0]
+        if k > 0:
+            ex.write_path(cell, path, s.set(items=((k - 1, v),) + s.items[1:]))
+            return M.poll_pending(dty)
+        ex.write_path(cell, path, s.set(items=s.items[1:]))
+        return M.poll_ready(dty, M.some('Option<?>', v))
+    M.poll_stream = poll_stream
+
+    orig = M.table['Future::poll']
+
+    def future_poll2(ex, info, a, dty):
+        pin = ex.materialize(a[0])
+        cell, path = ex.deref(pin)
+        v = ex.read_path(cell, path)
+        if isinstance(v, Obj) and v.kind == 'next':
+            return poll_stream(ex, v.stream, dty)
+        return orig(ex, info, a, dty)
+    for k in ('Future::poll', 'TryFuture::try_poll', 'FutureExt::poll_unpin'):
+        M.table[k] = future_poll2
+
+    @reg('Stream::poll_next', 'StreamExt::poll_next_unpin')
+    def _(ex, info, a, dty):
+        return poll_stream(ex, a[0], dty)
+
+    @reg('UnboundedSender::unbounded_send')
+    def _(ex, info, a, dty):
+        name = M.recv_name(ex, ex.materialize(a[0]))
+        closed = ex.env.get('receiver_closed', False)
+        M.log(ex, 'sent', channel=name, value=a[1], delivered=not closed)
+        if closed:
+            return Adt(dty or 'Result<(), TrySendError>', {(1, 0): Lazy('TrySendError', 'send_err')}, 1)
+        return Adt(dty or 'Result<(), TrySendError>', {(0, 0): UNIT}, 0)
+
+    @reg('UnboundedSender::clone')
+    def _(ex, info, a, dty):
+        return M.load(ex, a[0])
